@@ -273,12 +273,18 @@ func (c12) execMulti(f []string) (string, []Fail) {
 	// (1) the history on ONE library, (2) every read on a fresh library
 	hist := make([]string, n)
 	allok := true
+	libBefore := c12Dump(lib)
 	for r := 0; r < n; r++ {
 		hist[r] = runOn(worker, r)
 		if !strings.HasPrefix(hist[r], "ok ") {
 			allok = false
 			stat("multi.abort")
 		}
+	}
+	// frame (Props/C12S.lean read_leaves_library_unchanged): the reads only READ the library object — every parameter, tag
+	// length and sample table is as it was before the history
+	if after := c12Dump(lib); after != libBefore {
+		fails = append(fails, Fail{"history.library-mutated", "the library object after the history differs from before: " + libBefore + "  VERSUS  " + after})
 	}
 	for r := 0; r < n; r++ {
 		_, w2, st2 := c12NewWorker(sheet, c.e, c.indel)
